@@ -436,3 +436,219 @@ def envelope_check(ctx, cls, gr):
                     "%r, which belongs to the language the property promises to parse: the real parser certainly rejects it "
                     "too" % res[1], gr.func.qname, "%s rejects %r" % (key, res[1]))
     ctx.extra["envelope"] = stats
+
+
+# --------------------------------------------------------------------------------------- ties of longest-match alternations
+def common_word(ga, gb, limit=200000):
+    """A shortest string that the envelopes of BOTH expressions match completely (same start, same end), or None.
+    pyparsing's Or (`^`) picks the longest match and, among equally long ones, the alternative listed first: a common
+    word of two alternatives is an input on which their ORDER decides the result."""
+    na, nb = NFA(), NFA()
+    sa, ea = build(ga, na, True)
+    sb, eb = build(gb, nb, True)
+    na.accept.add(ea)
+    nb.accept.add(eb)
+    start = (na.closure([sa]), nb.closure([sb]))
+    seen = {start: None}
+    q = deque([start])
+    n = 0
+    while q:
+        cur = q.popleft()
+        A, B = cur
+        n += 1
+        if n > limit:
+            raise AnalysisError("tie analysis exceeded %d product states" % limit)
+        if (A & na.accept) and (B & nb.accept) and seen[cur] is not None:
+            out = []
+            c = cur
+            while seen[c] is not None:
+                c, ch = seen[c]
+                out.append(ch)
+            return "".join(reversed(out))
+        chars = set()
+        for p in A:
+            for cs, t in na.trans[p]:
+                chars |= cs
+        succ = {}
+        for ch in sorted(chars):
+            A2 = na.step(A, ch)
+            if not A2:
+                continue
+            B2 = nb.step(B, ch)
+            if not B2:
+                continue
+            succ.setdefault((A2, B2), ch)
+        for nxt, ch in succ.items():
+            if nxt not in seen:
+                seen[nxt] = (cur, ch)
+                q.append(nxt)
+    return None
+
+
+def alternations(g, op="BitXor", _seen=None):
+    """All alt nodes with the given operator reachable from g (each once)."""
+    _seen = _seen if _seen is not None else set()
+    out = []
+    if id(g) in _seen:
+        return out
+    _seen.add(id(g))
+    if g.kind == "alt" and g.a.get("op") == op:
+        out.append(g)
+    for k in g.kids:
+        out.extend(alternations(k, op, _seen))
+    return out
+
+
+def alt_class(k):
+    """What an alternative yields, as far as the post-processing can tell: its result name, else its shape."""
+    if k.name:
+        return k.name
+    t = names_tree(k)
+    if t:
+        return "{" + ",".join(sorted(t)) + "}"
+    return k.kind
+
+
+def ties(g):
+    """[(alt node, i, j, class_i, class_j, witness)] for every pair of alternatives of a `^` alternation under g that
+    can match the same text completely."""
+    out = []
+    for a in alternations(g):
+        for i in range(len(a.kids)):
+            for j in range(i + 1, len(a.kids)):
+                w = common_word(a.kids[i], a.kids[j])
+                if w is not None:
+                    out.append((a, i, j, alt_class(a.kids[i]), alt_class(a.kids[j]), w.strip()))
+    return out
+
+
+def shadow_word(ga, gb, limit=200000):
+    """(w, w+x): a shortest pair such that the envelope of `ga` matches w and the envelope of `gb` matches the longer w+x
+    (x non-empty and not only white space), or None. In a first-match alternation (`|`) with ga listed BEFORE gb, ga
+    commits on w and gb never sees w+x."""
+    na, nb = NFA(), NFA()
+    sa, ea = build(ga, na, True)
+    sb, eb = build(gb, nb, True)
+    na.accept.add(ea)
+    nb.accept.add(eb)
+    # states of nb from which acceptance is reachable by at least one non-blank character
+    start = (na.closure([sa]), nb.closure([sb]))
+    seen = {start: None}
+    q = deque([start])
+    n = 0
+
+    def word(c):
+        out = []
+        while seen[c] is not None:
+            c, ch = seen[c]
+            out.append(ch)
+        return "".join(reversed(out))
+
+    def extension(B):
+        seenb = {B: None}
+        qb = deque([B])
+        while qb:
+            cur = qb.popleft()
+            if (cur & nb.accept) and seenb[cur] is not None:
+                out = []
+                c = cur
+                while seenb[c] is not None:
+                    c, ch = seenb[c]
+                    out.append(ch)
+                return "".join(reversed(out))
+            chars = set()
+            for p in cur:
+                for cs, t in nb.trans[p]:
+                    chars |= cs
+            succ = {}
+            for ch in sorted(chars - set(WS)):
+                B2 = nb.step(cur, ch)
+                if B2:
+                    succ.setdefault(B2, ch)
+            for nxt, ch in succ.items():
+                if nxt not in seenb:
+                    seenb[nxt] = (cur, ch)
+                    qb.append(nxt)
+        return None
+
+    while q:
+        cur = q.popleft()
+        A, B = cur
+        n += 1
+        if n > limit:
+            raise AnalysisError("shadow analysis exceeded %d product states" % limit)
+        if (A & na.accept) and seen[cur] is not None:
+            x = extension(B)
+            if x is not None:
+                w = word(cur)
+                return w, w + x
+        chars = set()
+        for p in A:
+            for cs, t in na.trans[p]:
+                chars |= cs
+        succ = {}
+        for ch in sorted(chars):
+            A2 = na.step(A, ch)
+            B2 = nb.step(B, ch) if A2 else None
+            if A2 and B2:
+                succ.setdefault((A2, B2), ch)
+        for nxt, ch in succ.items():
+            if nxt not in seen:
+                seen[nxt] = (cur, ch)
+                q.append(nxt)
+    return None
+
+
+PROBES = ["0", "8", "-8", "0x10", "-0x10", "1b", "1f", "foo", ".L1", "foo+8", "8+foo", "-", "%rax", "%xmm1", "$1", "$0x1", "$foo", "(%rax)",
+          "8(%rax)", "8(%rax,%rbx,4)", "(,%rbx,4)", "*%rax", "*8(%rax)", "%fs:8", "x0", "w1", "v0.4s", "z0.d", "p0/m", "#1", "#0x1", "#-1",
+          "[x0]", "[x0, #8]", "[x0, #8]!", "[x0], #8", "[x0, x1, lsl #3]", "{v0.4s, v1.4s}", "{v0.4s - v3.4s}", "lsl #2", "lsl", "eq",
+          "AL", "PLDL1KEEP", ":lo12:foo", "foo@PAGE", "\"a\"", "a,", ",", "1.5", "1e3", "#1.5", "mul vl", "B0", "."]
+
+
+def probe_class(k, cache={}):
+    """Class of an alternative = its result name plus the probe strings its envelope accepts: stable under renaming and
+    re-spelling of the alternative, different for alternatives that share a result name (hex / decimal numbers)."""
+    key = id(k)
+    if key not in cache:
+        nfa = NFA()
+        s, e = build(k, nfa, True)
+        nfa.accept.add(e)
+        acc = [p for p in PROBES if nfa.accepts(p, s)]
+        cache[key] = (k, "%s<%s>" % (alt_class(k), " ".join(acc)))
+    return cache[key][1]
+
+
+def order_relations(gr):
+    """Every ordered pair of alternatives of one alternation of the grammar for which the ORDER can decide the result:
+    {(kind, class_first, class_second): (active, witness, variable)}. kind 'tie' (`^`: both match the same text, the
+    first listed wins) or 'shadow' (`|`: the first listed matches a prefix of what the second would match).
+    `active`: the relation holds in the order as written; otherwise it would hold if the two were swapped."""
+    out = {}
+    seen = set()
+    for key in gr.order:
+        g = gr.env[key]
+        if not isinstance(g, G):
+            continue
+        for a in alternations(g, "BitXor"):
+            if id(a) in seen:
+                continue
+            seen.add(id(a))
+            for i in range(len(a.kids)):
+                for j in range(i + 1, len(a.kids)):
+                    w = common_word(a.kids[i], a.kids[j])
+                    if w is not None:
+                        out.setdefault(("tie", probe_class(a.kids[i]), probe_class(a.kids[j])), (True, w.strip(), key))
+        for a in alternations(g, "BitOr"):
+            if id(a) in seen:
+                continue
+            seen.add(id(a))
+            for i in range(len(a.kids)):
+                for j in range(i + 1, len(a.kids)):
+                    act = shadow_word(a.kids[i], a.kids[j])
+                    lat = shadow_word(a.kids[j], a.kids[i])
+                    ci, cj = probe_class(a.kids[i]), probe_class(a.kids[j])
+                    if act:
+                        out.setdefault(("shadow", ci, cj), (True, "%s | %s" % act, key))
+                    if lat:
+                        out.setdefault(("shadow-if-swapped", ci, cj), (False, "%s | %s" % lat, key))
+    return out
